@@ -158,6 +158,8 @@ class AccessMixin(object):
     m = cls.find_method(name)
     if m is not None and m.is_property:
       if m.is_abstract:
+        if self.field_kind(cls, name) is not None:
+          return [(st, self.read_field(st, v, name))]      # every concrete subclass stores it as a plain attribute
         raise Unsupported('abstract property %s.%s (dynamic class unknown)' % (cls.name, name))
       return self.call_function(st, m, [v], {})
     # 2 instance fields
